@@ -63,6 +63,13 @@ fn one<T: RelationToQueryTranslator + QueryToRelationTranslator + Copy>(cx: &mut
         Ok(Err(e)) => { let f = format!("/tmp/c17_rejected_{}.sql", name); if std::env::var("QV_KEEP").is_ok() && !std::path::Path::new(&f).exists() { let _ = std::fs::write(&f, &text); }
             cx.st.violation(json!({"kind":"translated-sql-rejected-by-the-dialect-parser","dialect":name,"class":cx.class,"construct":construct_of(&e.to_string()),"query":cx.sql,"error":e.to_string().chars().take(200).collect::<String>(),"translated":text.chars().take(500).collect::<String>()})); return; }
         Err(_) => { cx.st.violation(json!({"kind":"dialect-parser-panics","dialect":name,"class":cx.class,"query":cx.sql})); return; } };
+    // a WITH clause defines each name once: no engine of the eight accepts a name defined twice
+    if let Some(with) = &q.with {
+        let mut seen = std::collections::BTreeSet::new();
+        for c in with.cte_tables.iter() { if !seen.insert(c.alias.name.value.clone()) {
+            cx.st.violation(json!({"kind":"translated-sql-defines-a-cte-twice","dialect":name,"class":cx.class,"query":cx.sql,"cte":c.alias.name.value,"translated":text.chars().take(500).collect::<String>()}));
+            return; } }
+    }
     let back = match catch_unwind(AssertUnwindSafe(|| Relation::try_from((q.with(cx.relations), t)))) { Ok(Ok(r)) => r,
         Ok(Err(e)) => { cx.st.violation(json!({"kind":"translated-sql-not-read-back","dialect":name,"class":cx.class,"construct":construct_of(&e.to_string()),"query":cx.sql,"error":e.to_string().chars().take(200).collect::<String>(),"translated":text.chars().take(500).collect::<String>()})); return; }
         Err(_) => { cx.st.violation(json!({"kind":"reading-back-panics","dialect":name,"class":cx.class,"construct":construct_of(&last_panic()),"query":cx.sql,"panic":last_panic(),"translated":text.chars().take(500).collect::<String>()})); return; } };
@@ -129,7 +136,13 @@ pub fn run(outdir: &str, seed: u64, thorough: bool) -> serde_json::Value {
                 // expression shapes whose text could collide with lexical conventions of a dialect (comments, operators, quotes)
                 "SELECT -(-t.age) AS x, - t.income AS y, t.age - (-5) AS z FROM users AS t", "SELECT NOT (NOT (t.age > 30)) AS x, -(-(-t.age)) AS y FROM users AS t WHERE -(-t.age) > 20",
                 "SELECT '--' AS a, '/* x */' AS b, t.city AS c FROM users AS t", "SELECT t.age * -1 AS x, t.age / 2 AS y, t.age % 7 AS z FROM users AS t",
-                "SELECT CASE WHEN t.age > 30 THEN -(-t.income) ELSE - t.income END AS x FROM users AS t"];
+                "SELECT CASE WHEN t.age > 30 THEN -(-t.income) ELSE - t.income END AS x FROM users AS t",
+                // a sub-relation shared by both operands of a set operation or a join, under different projections
+                "WITH c AS (SELECT t.age AS a, t.id AS b FROM users AS t WHERE t.age > 20) SELECT c.a AS v FROM c UNION ALL SELECT c.b AS v FROM c",
+                "WITH c AS (SELECT t.age AS a, t.id AS b FROM users AS t WHERE t.age > 20) SELECT c.a AS v FROM c WHERE c.a > 30 EXCEPT SELECT c.b AS v FROM c WHERE c.b < 40",
+                "WITH c AS (SELECT t.age AS a, t.id AS b FROM users AS t) SELECT c.a + 1 AS v FROM c INTERSECT SELECT c.b + 2 AS v FROM c",
+                "WITH c AS (SELECT t.age AS a, t.id AS b FROM users AS t) SELECT x.a AS a, y.b AS b FROM c AS x JOIN c AS y ON x.b = y.a",
+                "WITH c AS (SELECT t.age AS a, t.id AS b FROM users AS t), d AS (SELECT c.a AS v FROM c UNION SELECT c.b AS v FROM c) SELECT d.v AS v FROM d UNION ALL SELECT c.a + c.b AS v FROM c"];
             let sql = if k >= 1 && k <= frag_targeted.len() { frag_targeted[k - 1].to_string() } else {
                 let (q0, cols) = { let mut g = QGen::new(&mut r, &w.specs); g.bool_items = true; g.query(depth) };
                 let is_set = q0.contains(" UNION ") || q0.contains(" INTERSECT ") || q0.contains(" EXCEPT ");
